@@ -213,6 +213,11 @@ class Circle(Shape2D):
         return Circle(self.radius, self.centroid)
 
     @property
+    def maximal_bounded_circle(self):
+        """:class:`~.Circle`: Get the largest bounded circle."""
+        return Circle(self.radius, self.centroid)
+
+    @property
     def maximal_centered_bounded_circle(self):
         """:class:`~.Circle`: Get the largest bounded concentric circle."""
         return Circle(self.radius, self.centroid)
